@@ -117,7 +117,7 @@ proof { assert(**cp as int == vals[k]); assert(forall|i: int| 0 <= i < k ==> val
            )}),
     ], header='use super::*;\nuse crate::spec::*;\nuse crate::ucd_parse::Codepoints::{Range, Single};\nuse crate::ucd_parse::{Codepoint, CodepointRange, Codepoints, vx_sorted_refs};\nuse crate::error::Error;\n')
     parsers = Module('ucd_parsers', 'precis-tools/src/ucd_parsers.rs', [
-        StructFields(r'pub\s+struct\s+UnicodeData\b', keep=['codepoints', 'general_category', 'canonical_combining_class', 'bidi_class']),
+        StructFields(r'pub\s+struct\s+UnicodeData\b', keep=['codepoints', 'general_category', 'canonical_combining_class', 'bidi_class', 'decomposition']),
     ], header='use super::*;\nuse crate::ucd_parse;\n')
     NEXT = 'self.range.start.v()'
     unassigned = Impl(
@@ -170,9 +170,18 @@ proof { assert(**cp as int == vals[k]); assert(forall|i: int| 0 <= i < k ==> val
         Verbatim(r'pub\s+struct\s+ViramaTableGen\b'),
         Text('impl ViramaTableGen { pub closed spec fn set(&self) -> Set<u32> { self.cps@ } }'),
         virama,
+        Verbatim(r'pub\s+struct\s+WidthMappingTableGen\b'),
+        Text('impl WidthMappingTableGen { pub closed spec fn rows(&self) -> Seq<(Codepoints, crate::ucd_parse::Codepoint)> { self.vec@ } }'),
+        Impl(r'impl\s+UcdLineParser<ucd_parsers::UnicodeData>\s+for\s+WidthMappingTableGen\b', header='impl WidthMappingTableGen', fns=[
+            Fn('process_entry', ret='res',
+               # `err!(..)` expands to Err(Error::parse(format!(..))): W.err replaces the macro call by a wrapper returning an Err
+               rewrites=[('W.err', r'err!\("[^"]*"\)', 'crate::error::vx_err()', 1)],
+               ensures=[('C15.width_row', 'res is Ok ==> final(self).rows() == (if udata.decomposition.tag == Some(UnicodeDataDecompositionTag::Wide) || udata.decomposition.tag == Some(UnicodeDataDecompositionTag::Narrow) { old(self).rows().push((udata.codepoints, udata.decomposition.mapping[0])) } else { old(self).rows() })'),
+                        ('C15.width_err', 'res is Err ==> udata.decomposition.len == 0 && final(self).rows() == old(self).rows()')]),
+        ]),
         Verbatim(r'pub\s+struct\s+UnassignedTableGen\b'),
         unassigned,
-    ], header='use super::*;\nuse crate::spec::*;\nuse crate::common;\nuse crate::ucd_parse;\nuse crate::ucd_parsers;\nuse crate::ucd_parse::Codepoints;\nuse crate::error::Error;\nbroadcast use {crate::ucd_parse::axiom_string_eq};\n')
+    ], header='use super::*;\nuse crate::spec::*;\nuse crate::common;\nuse crate::ucd_parse;\nuse crate::ucd_parsers;\nuse crate::ucd_parse::Codepoints;\nuse crate::ucd_parse::UnicodeDataDecompositionTag;\nuse crate::error::Error;\nbroadcast use {crate::ucd_parse::axiom_string_eq};\n')
     err = Module('error', None, [Text('''
 // MODEL of precis_tools::Error (message/line/path record built with format!): only its existence matters here
 #[derive(Debug)]
@@ -181,6 +190,9 @@ impl From<crate::ucd_parse::Error> for Error {
     #[verifier::external_body]
     fn from(error: crate::ucd_parse::Error) -> Self { unimplemented!() }
 }
+// W.err: `err!("..")` = Err(Error::parse(format!("..")))
+#[verifier::external_body]
+pub fn vx_err<T>() -> (r: Result<T, Error>) ensures r is Err { unimplemented!() }
 ''')], header='use super::*;\n')
     bidi = Module('bidi_class', 'precis-tools/src/generators/bidi_class.rs', [
         Verbatim(r'pub\s+struct\s+BidiClassGen\b'),
